@@ -534,6 +534,11 @@ pub fn show_op(op: &Op) -> String {
         Op::ParseExec { prog, ctx, times } => format!("parse_expression({:?}).exec({}) x{}", prog.text(), show_ctx(ctx), times),
         Op::ExecShared { ast, ctx } => format!("shared_ast[{}].exec({})", ast, show_ctx(ctx)),
         Op::OnThread { ops } => format!("on_new_thread[{}]", ops.iter().map(show_op).collect::<Vec<_>>().join("; ")),
+        Op::WithManager { regs, then } => format!(
+            "with_one_manager_handle[set {:?}; then {}; drop]",
+            regs,
+            then.iter().map(show_op).collect::<Vec<_>>().join("; ")
+        ),
         Op::Describe { prog } => format!("parse_expression({:?}).describe()", prog.text()),
         other => format!("{:?}", other),
     }
